@@ -83,14 +83,20 @@ theorem pow_spec (a : Dual2 ℝ) (ha : a.WF) (p : ℝ) :
   have m1 := Dual2.mshape_map _ _ (· * (p * a.real ^ (p - 1))) mx
   have mo1 := Dual2.mshape_map _ _ (· * (1 / 2 * p * (p - 1) * a.real ^ (p - 2))) mo
   have mall := Dual2.mshape_zipWith _ _ _ (· + ·) m1 mo1
-  refine ⟨⟨ha.1, by simp [Dual2.pow, vscaleR, hl], ?_, ?_⟩, rfl, rfl, fun n => ?_, fun n w => ?_⟩
-  · simpa [Dual2.pow, madd_eq, mscaleR_eq, powf_real, half] using mall.1
-  · simpa [Dual2.pow, madd_eq, mscaleR_eq, powf_real, half] using mall.2
-  · simp only [Dual2.pow, Dual2.den_mk, vscaleR_eq, powf_real]
+  -- over ℝ the repaired (guarded) coefficients are the plain ones
+  have hform : Dual2.pow a p = ⟨a.real ^ p, a.vars, vscaleR a.dual (p * a.real ^ (p - 1)),
+      madd (mscaleR a.dual2 (p * a.real ^ (p - 1)))
+        (mscaleR (outer a.dual a.dual) (half * p * (p - 1) * a.real ^ (p - 2)))⟩ := by
+    simp only [Dual2.pow, coeffPow_real, powf_real]
+  rw [hform]
+  refine ⟨⟨ha.1, by simp [vscaleR, hl], ?_, ?_⟩, rfl, rfl, fun n => ?_, fun n w => ?_⟩
+  · simpa [madd_eq, mscaleR_eq, powf_real, half] using mall.1
+  · simpa [madd_eq, mscaleR_eq, powf_real, half] using mall.2
+  · simp only [Dual2.den_mk, vscaleR_eq, powf_real]
     rw [L1_map _ _ _ (by simp) hl]
     simp only [Dual2.den]
     ring
-  · simp only [Dual2.pow, Dual2.den2_mk, mscaleR_eq, madd_eq, powf_real, half]
+  · simp only [Dual2.den2_mk, mscaleR_eq, madd_eq, powf_real, half]
     rw [L2_zip _ _ _ _ (by simp) m1 mo1, L2_map _ _ _ (by simp) mx, L2_map _ _ _ (by simp) mo,
       L2_outer _ _ _ hl hl]
     simp only [Dual2.den, Dual2.den2]
